@@ -45,15 +45,12 @@ Theorem flip_step_spec : ∀ (g g' : circuit) n i j (v : val),
   g !! ("c1_" ++ n) = Some i → g !! ("c0_" ++ n) = Some j → n_ty j ≠ BbIn → n_ty j ≠ BbOut →
   flip_node g n = Ok g' →
   consistent g' v ↔ consistent (delete ("c1_" ++ n) g) v ∧ v ("c1_" ++ n) = negb (v ("c0_" ++ n)).
-Proof.
-  intros g g' n i j v Hi Hj H1 H2. rewrite (flip_node_closed_form g n i j Hi Hj H1 H2). intros [= <-].
-  apply flip_node_consistent.
-Qed.
+Proof. exact flip_step. Qed.
 Print Assumptions flip_step_spec.
 (* ... and in context: the second copy computes c with n inverted *)
 Theorem second_copy_inverted : ∀ c n (E : gset string) T, closed c → acyclic c → inputs_only c → n ∈ dom c → sens_shape c n E T →
   ∀ v, consistent T v → ∀ x, x ∈ dom c → v ("c0_" ++ x) = evalc c v x ∧ v ("c1_" ++ x) = inverted c n v x.
-Proof. intros c n E T ???? Hsh v Hv x Hx. split; [by eapply c0_values|by eapply c1_values]. Qed.
+Proof. exact copies_values. Qed.
 Print Assumptions second_copy_inverted.
 (* the xor-compare lemma *)
 Theorem xor_compare : ∀ (v : val) a b, a ≠ b → gate_val Xor v {[a; b]} = xorb (v a) (v b).
@@ -74,7 +71,7 @@ Print Assumptions sensitivity_transform_spec_partial.
    k = 0 also admits c = m when m = 2^w (top bit unconstrained) -- harmless in a descending search, since m was refuted first *)
 Theorem width_argument : ∀ m w k c, clog2 m = Ok w → k ≤ m → c ≤ m →
   matches (int_to_bin_le k w) c → c = k ∨ (k = 0 ∧ c = m).
-Proof. intros m w k c (_ & H & _)%clog2_spec. by apply matches_enc. Qed.
+Proof. exact width_arg. Qed.
 Print Assumptions width_argument.
 (* no assumption names a sen_out bit that does not exist *)
 Theorem width_fits : ∀ m w W k, clog2 m = Ok w → clog2 (m + 1) = Ok W → k ≤ m → length (int_to_bin_le k w) ≤ W.
